@@ -101,6 +101,19 @@ claim('C04', 'guard dominance (edge cuts), provenance and who-may-prune rules on
       'rustc front end + MIR; mirfacts; BTreeSet semantics (insert => non-empty).',
       'DESIGN.md section 4 C04')
 
+claim('C05', 'guard (edge-cut) and provenance rules on the fragment assembler MIR',
+      'Byte-exact reassembly for every size / fragment size / order is a value property and is NOT decided. Decided: a sample is released only on is_complete() of the buffer '
+      'selected by the DATAFRAG\'s own sequence number, is_complete() is the all() of the per-fragment bitmap (not an arrival count), the buffer is removed on release and its bytes '
+      'are what is released; every carried fragment sets its own bit; assemblers are keyed by the sending writer\'s guid.',
+      'rustc front end + MIR; mirfacts; BitVec / BTreeMap semantics.',
+      'DESIGN.md section 4 C05')
+claim('C08', 'effect (who-may-remove), must-call and monotone-write rules on the generic MIR of DataSampleCache<D>',
+      'The instance-state machine, generation counters and KeepLast eviction over access histories are NOT decided. Decided: read/select never remove, take returns exactly what it '
+      'removes and removes every selected key, read marks every reported sample, both select functions sort by the stored sequence number, the per-access generation record only '
+      'moves forward and is what is written to the instance marker.',
+      'rustc front end + MIR (polymorphic bodies); mirfacts.',
+      'DESIGN.md section 4 C08')
+
 _pending = 'check not built yet in this revision (static rules designed in DESIGN.md section 4; implementation in progress)'
 for _p in ['C01', 'C02', 'C03', 'C04', 'C05', 'C06', 'C08', 'C09', 'C10', 'C11', 'C12', 'C14', 'C15', 'C16', 'C17', 'C18', 'C19', 'C20']:
     if _p not in CHECKS:
